@@ -584,4 +584,85 @@ theorem pairLoop_eq_lin (z : Str) (n : Nat) : ∀ O : List Overhang, O.Pairwise 
         · simp only [hbr, if_false, ih', Option.map_some]
           simp [adjPairs, pieceOf, hem']
 
+/-! ### stability: forward overhangs stay in front of reverse overhangs at the same position -/
+
+/-- the shape of the list handed to the sort: every forward overhang precedes every reverse one -/
+def FR (a b : Overhang) : Prop := a.forward = true ∨ b.forward = false
+
+def KeyLe (a b : Overhang) : Prop :=
+  a.position < b.position ∨ (a.position = b.position ∧ (a.forward = true ∨ b.forward = false))
+
+/-- order by position, a forward overhang before a reverse overhang at the same position -/
+def KeyLt (a b : Overhang) : Prop :=
+  a.position < b.position ∨ (a.position = b.position ∧ a.forward = true ∧ b.forward = false)
+
+theorem insertByPos_keySorted (o : Overhang) : ∀ l : List Overhang, l.Pairwise KeyLe → (∀ x ∈ l, FR o x) →
+    (insertByPos o l).Pairwise KeyLe := by
+  intro l
+  induction l with
+  | nil => intro _ _; simp [insertByPos]
+  | cons x xs ih =>
+    intro h hfr
+    rw [insertByPos]
+    have hx := List.pairwise_cons.1 h
+    split
+    · rename_i hle
+      refine List.pairwise_cons.2 ⟨?_, h⟩
+      intro y hy
+      have hxy : x.position ≤ y.position := by
+        rcases List.mem_cons.1 hy with rfl | hy'
+        · exact Int.le_refl _
+        · have := hx.1 y hy'; unfold KeyLe at this; omega
+      rcases Int.lt_or_eq_of_le (Int.le_trans hle hxy) with hlt | heq
+      · exact Or.inl hlt
+      · exact Or.inr ⟨heq, hfr y hy⟩
+    · rename_i hle
+      refine List.pairwise_cons.2 ⟨?_, ih hx.2 (fun y hy => hfr y (List.mem_cons_of_mem _ hy))⟩
+      intro y hy
+      rcases List.mem_cons.1 ((insertByPos_perm o xs).mem_iff.1 hy) with rfl | hy
+      · exact Or.inl (by omega)
+      · exact hx.1 y hy
+
+theorem sortByPos_keySorted : ∀ l : List Overhang, l.Pairwise FR → (sortByPos l).Pairwise KeyLe := by
+  intro l
+  induction l with
+  | nil => intro _; simp [sortByPos]
+  | cons x xs ih =>
+    intro h
+    rw [sortByPos]
+    have hx := List.pairwise_cons.1 h
+    exact insertByPos_keySorted x _ (ih hx.2) (fun y hy => hx.1 y ((sortByPos_perm xs).mem_iff.1 hy))
+
+theorem dedupInto_sublist : ∀ (l acc : List Overhang), ∃ l', dedupInto acc l = acc ++ l' ∧ l'.Sublist l := by
+  intro l
+  induction l with
+  | nil => intro acc; exact ⟨[], by simp [dedupInto], List.Sublist.refl _⟩
+  | cons x xs ih =>
+    intro acc
+    rw [dedupInto]
+    split
+    · obtain ⟨l', h1, h2⟩ := ih acc
+      exact ⟨l', h1, h2.cons x⟩
+    · obtain ⟨l', h1, h2⟩ := ih (acc ++ [x])
+      exact ⟨x :: l', by rw [h1]; simp, h2.cons_cons x⟩
+
+/-- sorted by key + no two elements with the same position and direction ⇒ strictly sorted by key -/
+theorem keyLt_of_keyLe {S : List Overhang} (h1 : S.Pairwise KeyLe) (h2 : S.Nodup)
+    (h3 : ∀ a ∈ S, ∀ b ∈ S, a.position = b.position → a.forward = b.forward → a = b) : S.Pairwise KeyLt := by
+  have h2' : S.Pairwise (· ≠ ·) := h2
+  refine (h1.and h2').imp_of_mem ?_
+  intro a b ha hb hab
+  obtain ⟨hle, hne⟩ := hab
+  rcases hle with hlt | ⟨heq, hf⟩
+  · exact Or.inl hlt
+  · refine Or.inr ⟨heq, ?_⟩
+    by_cases hfa : a.forward = true
+    · by_cases hfb : b.forward = true
+      · exact absurd (h3 a ha b hb heq (by rw [hfa, hfb])) hne
+      · exact ⟨hfa, by simpa using hfb⟩
+    · have hfa' : a.forward = false := by simpa using hfa
+      rcases hf with h | h
+      · exact absurd h hfa
+      · exact absurd (h3 a ha b hb heq (by rw [hfa', h])) hne
+
 end PolyVerif.Digest
